@@ -1,6 +1,6 @@
 (* C13_Props.v — the property theorems of C13 and nothing else.
    Each is closed by `exact <lemma>` and followed by Print Assumptions. *)
-From V Require Import C13_Consts C13_Model C13_Spec C13_Proofs C13_Proofs2 C13_Proofs3 C13_Proofs4.
+From V Require Import C13_Consts C13_Model C13_Spec C13_Proofs C13_Proofs2 C13_Proofs3 C13_Proofs4 C13_Call C13_CallProofs.
 Open Scope N_scope.
 
 (* ---------------- (1) acceptance ---------------- *)
@@ -439,3 +439,129 @@ Proof.
       by (apply connect_end_stream_silent_iff; eauto). vm_compute in E. discriminate E.
   - intros C. apply clean_json_iff in C. vm_compute in C. discriminate C.
 Qed.
+
+(* ---------------- (5) the glue: from the bytes on the wire to the feedback field ---------------- *)
+(* C13_Call: what the trace holds for a response body of complete envelopes (tracer/reader.go), what the
+   examiners read off it (getBodyEndStream, isTrailersOnlyResponse), and the call sites of
+   invoker.examineWireDetails in referenceclient/impl.go. *)
+
+(* the end-stream content handed to the examiners is the WHOLE payload of the first end-stream
+   envelope with content — for every payload length *)
+Theorem end_stream_handed_over_whole : forall pre f payload post,
+  Forall no_end_stream pre -> is_end_flag f = true -> payload <> [] ->
+  first_end_stream (flat_map env_events (pre ++ (f, payload) :: post)) = Some payload.
+Proof. exact first_end_stream_whole_proof. Qed.
+Print Assumptions end_stream_handed_over_whole.
+
+(* in reference mode every call site (with the stream set up) answers with the examination of the
+   call's response: status code and the examiners' feedback ... *)
+Theorem call_is_examination : forall u m ended r,
+  call_feedback u true m false ended r =
+  match examine_wire u (wire_of_response r) with
+  | Crash => Crash
+  | Done f => Done (Some (r_status r), f)
+  end.
+Proof. exact call_is_examination_proof. Qed.
+Print Assumptions call_is_examination.
+
+(* ... whatever the RPC ended with: no error, or any error code (in particular canceled and
+   deadline_exceeded, which a server may send as well as the client may produce) *)
+Theorem call_examined_for_every_code : forall u m r e1 e2,
+  call_feedback u true m false e1 r = call_feedback u true m false e2 r.
+Proof. exact call_examined_for_every_code_proof. Qed.
+Print Assumptions call_examined_for_every_code.
+
+Theorem call_total : forall u refmode m sf ended r, exists st f,
+  call_feedback u refmode m sf ended r = Done (st, f).
+Proof. exact call_total_proof. Qed.
+Print Assumptions call_total.
+
+(* unary Connect error: the feedback field starts with the examiner's verdict on the body *)
+Theorem call_connect_error : forall u m ended r,
+  r_ctype r = bs "application/json" -> r_status r <> 200%Z ->
+  exists tail, call_feedback u true m false ended r =
+               Done (Some (r_status r), examine_connect_error (r_body_json r) ++ tail).
+Proof. exact call_connect_error_proof. Qed.
+Print Assumptions call_connect_error.
+
+Theorem call_flags_connect_unknown_key_every_code : forall u m ended r ms k v,
+  r_ctype r = bs "application/json" -> r_status r <> 200%Z -> r_body_json r = Some (JObj ms) ->
+  In (k, v) ms -> k <> bs "code" -> k <> bs "message" -> k <> bs "details" ->
+  exists fbs, call_feedback u true m false ended r = Done (Some (r_status r), fbs) /\ fbs <> [].
+Proof. exact call_flags_connect_unknown_key_every_code_proof. Qed.
+Print Assumptions call_flags_connect_unknown_key_every_code.
+
+(* gRPC trailers-only response: the feedback field is checkGRPCStatus of the headers *)
+Theorem call_grpc_trailers_only : forall u m ended r,
+  has_prefix (bs "application/grpc") (r_ctype r) = true ->
+  has_prefix (bs "application/grpc-web") (r_ctype r) = false ->
+  r_envs r = [] -> r_trailers r = [] ->
+  exists fbs, check_grpc_status u (r_headers r) = Done fbs /\
+              call_feedback u true m false ended r = Done (Some (r_status r), fbs).
+Proof. exact call_grpc_trailers_only_proof. Qed.
+Print Assumptions call_grpc_trailers_only.
+
+Theorem call_flags_grpc_bad_message_every_code : forall u m ended r msg tl,
+  has_prefix (bs "application/grpc") (r_ctype r) = true ->
+  has_prefix (bs "application/grpc-web") (r_ctype r) = false ->
+  r_envs r = [] -> r_trailers r = [] ->
+  hget (r_headers r) k_message = msg :: tl -> ~ pct_wf msg ->
+  exists fbs f, call_feedback u true m false ended r = Done (Some (r_status r), fbs) /\ In f fbs /\
+                (f = MsgHex \/ f = MsgRaw \/ f = MsgIncomplete).
+Proof. exact call_flags_grpc_bad_message_every_code_proof. Qed.
+Print Assumptions call_flags_grpc_bad_message_every_code.
+
+(* Connect stream: the feedback field starts with the examiner's verdict on the end-stream message *)
+Theorem call_connect_end_stream : forall u m ended r pre f text post,
+  has_prefix (bs "application/connect+") (r_ctype r) = true ->
+  r_envs r = pre ++ (f, text) :: post -> Forall no_end_stream pre -> is_end_flag f = true -> text <> [] ->
+  exists tail, call_feedback u true m false ended r =
+               Done (Some (r_status r), examine_connect_end_stream (r_eos_json r) ++ tail) /\
+               (r_trailers r = [] -> tail = []).
+Proof. exact call_connect_end_stream_proof. Qed.
+Print Assumptions call_connect_end_stream.
+
+(* acceptance carried to the feedback field, for end-stream messages of ANY length: the reference server's
+   Connect end-of-stream message ... *)
+Theorem call_connect_end_stream_clean : forall u m ended r pre f text post err trailers,
+  has_prefix (bs "application/connect+") (r_ctype r) = true ->
+  r_envs r = pre ++ (f, text) :: post -> Forall no_end_stream pre -> is_end_flag f = true -> text <> [] ->
+  r_eos_json r = Some (wire_end_stream err trailers) ->
+  match err with Some e => wf_wire_error e | None => True end -> Forall wf_field trailers ->
+  r_trailers r = [] ->
+  call_feedback u true m false ended r = Done (Some (r_status r), []).
+Proof. exact call_connect_end_stream_clean_proof. Qed.
+Print Assumptions call_connect_end_stream_clean.
+
+(* ... and its gRPC-Web trailer block *)
+Theorem call_grpc_web_end_stream_clean :
+  forall marshal u m ended r pre f post code msg details trailers blk,
+  proto_roundtrip marshal u -> 1 <= code <= 16 -> Forall is_byte msg -> wf_meta trailers ->
+  grpc_web_end_stream marshal code msg details trailers = Done blk ->
+  has_prefix (bs "application/grpc-web") (r_ctype r) = true ->
+  r_envs r = pre ++ (f, blk) :: post -> Forall no_end_stream pre -> is_end_flag f = true ->
+  r_trailers r = [] ->
+  call_feedback u true m false ended r = Done (Some (r_status r), []).
+Proof. exact call_grpc_web_end_stream_clean_proof. Qed.
+Print Assumptions call_grpc_web_end_stream_clean.
+
+(* non-vacuity: a data message, a zero-length end-stream message and an end-stream message with content:
+   the content is handed over; a response whose stream could not be set up is the one case a call site
+   does not examine; a malformed unary error is flagged under code canceled (1) as under unknown (2) *)
+Example ex_call_events :
+  first_end_stream (body_events (bs "application/connect+proto") [(0, [1; 2]); (2, []); (2, bs "{}"); (2, bs "x")]) = Some (bs "{}") /\
+  first_end_stream (body_events (bs "application/json") [(2, bs "{}")]) = None /\
+  Forall no_end_stream [(0, [1; 2]); (2, []); (1, [7])] /\
+  is_end_flag 2 = true /\ is_end_flag 128 = true /\ is_end_flag 3 = true /\ is_end_flag 1 = false.
+Proof.
+  repeat split; try (vm_compute; reflexivity).
+  repeat constructor; (left; reflexivity) || (right; reflexivity).
+Qed.
+Example ex_call_sites :
+  let r := mk_response 500 (bs "application/json") [] []
+             (Some (JObj [(bs "code", JStr (bs "canceled")); (bs "extra", JBool true)])) None [] in
+  call_feedback (fun _ => UBad) true MUnary false (Some 1) r = Done (Some 500%Z, [JKey 0]) /\
+  call_feedback (fun _ => UBad) true MUnary false (Some 2) r = Done (Some 500%Z, [JKey 0]) /\
+  call_feedback (fun _ => UBad) true MServerStream true None r = Done (None, []) /\
+  call_feedback (fun _ => UBad) false MUnary false (Some 1) r = Done (None, []).
+Proof. vm_compute. auto. Qed.
